@@ -3,6 +3,8 @@ package props
 import (
 	"bytes"
 	"fmt"
+	"github.com/ipld/go-ipld-prime/codec/dagjson"
+	selectorparse "github.com/ipld/go-ipld-prime/traversal/selector/parse"
 	"io"
 	"strings"
 
@@ -212,6 +214,32 @@ func c10Selector(c *fw.Ctx, rng *fw.RNG) {
 	var sel selector.Selector
 	var err error
 	c.Count("selector_compiles", 1)
+	// the text entry points of the same parser: a result or an error, never neither and never a panic; their
+	// verdict is the tree compiler's verdict
+	if rng.Chance(1, 3) {
+		var js bytes.Buffer
+		if dagjson.Encode(fnode.New(spec), &js) == nil {
+			text := js.String()
+			if rng.Chance(1, 3) && len(text) > 0 { // damaged text as well
+				b := []byte(text)
+				b[rng.Intn(len(b))] ^= 1 << uint(rng.Intn(7))
+				text = string(b)
+			}
+			var n1 datamodel.Node
+			var s2 selector.Selector
+			var e1, e2 error
+			if !c.Guard("C10:ParseJSONSelector", func() { n1, e1 = selectorparse.ParseJSONSelector(text) }) && (n1 == nil) == (e1 == nil) {
+				c.Deviate("C10:ParseJSONSelector:neither-result-nor-error", fmt.Sprintf("ParseJSONSelector(%s) returned node nil=%v and err=%v", clipS(text, 300), n1 == nil, e1))
+			}
+			if !c.Guard("C10:ParseAndCompileJSONSelector", func() { s2, e2 = selectorparse.ParseAndCompileJSONSelector(text) }) && (s2 == nil) == (e2 == nil) {
+				c.Deviate("C10:ParseAndCompileJSONSelector:neither-result-nor-error", fmt.Sprintf("ParseAndCompileJSONSelector(%s) returned selector nil=%v and err=%v", clipS(text, 300), s2 == nil, e2))
+			}
+			if (e1 == nil) != (e2 == nil) {
+				c.Deviate("C10:json-selector-entry-points-disagree", fmt.Sprintf("on %s ParseJSONSelector says err=%v, ParseAndCompileJSONSelector says err=%v", clipS(text, 300), e1, e2))
+			}
+			c.Count("json_selector_texts", 1)
+		}
+	}
 	if c.Guard("C10:CompileSelector", func() { sel, err = selector.CompileSelector(specNode) }) {
 		return
 	}
